@@ -61,6 +61,19 @@ def _stats(mem):
 
 
 def check(case, stats, clauses, nontrivial):
+    """Batch form: interpret the whole history of `case`."""
+    g = stepper(case, clauses, list(case["ops"]))
+    next(g)
+    for op in case["ops"]:
+        g.send(op)
+    flags, tags = g.send(None)
+    finish(case, stats, flags, tags, nontrivial)
+
+
+def stepper(case, clauses, known_ops=()):
+    """Coroutine form of the interpreter (also driven incrementally by the rule-based state machine, vf.machines):
+    after priming with next(), send one operation at a time; send(None) runs the end-of-history checks and yields
+    (flags, tags).  `case` is only used for reporting and for cfg/pre; `known_ops` pre-populates the address pool."""
     from architecture_simulator.uarch.memory.memory import MemoryAddressError
     cfg = case["cfg"]
     mem, pm = build(cfg)
@@ -75,7 +88,7 @@ def check(case, stats, clauses, nontrivial):
         pool_words.add(a & M32 & ~3)
     if "accounting" in clauses and _stats(mem) != (0, 0, False):
         raise Violation("preload-counted", case, f"counters after preloads: {_stats(mem)}")
-    for op in case["ops"]:
+    for op in known_ops:
         a = op[2] & M32
         pool_words.add(a & ~3)
         pool_words.add((a + op[1] - 1) & M32 & ~3)
@@ -100,9 +113,17 @@ def check(case, stats, clauses, nontrivial):
     def pool_snapshot(m):
         return {a: safe_word(m, a, "pool snapshot") for a in sorted(pool_words)}
 
-    for k, op in enumerate(case["ops"]):
+    k = -1
+    while True:
+        op = yield
+        if op is None:
+            break
+        k += 1
         rw, w, addr = op[0], op[1], op[2]
         na = addr & M32
+        for pa in (na & ~3, (na + w - 1) & M32 & ~3):
+            if B <= pa <= T - 4:
+                pool_words.add(pa)
         crossing = (na & 3) + w > 4
         in_range = L.classify(addr, w) == "ok"
         accept = in_range and not crossing
@@ -238,6 +259,11 @@ def check(case, stats, clauses, nontrivial):
     for f, v in flags.items():
         if v:
             tags.add("flag:" + f)
+    yield flags, tags
+
+
+def finish(case, stats, flags, tags, nontrivial):
+    cfg = case["cfg"]
     if nontrivial == "c03":
         nt = flags["read_after_evict_written"] or flags["wt_write_hit_then_read"]
     elif nontrivial == "c09":
